@@ -8,6 +8,8 @@ import (
 	"fmt"
 	"strconv"
 	"strings"
+	"math"
+	"time"
 
 	"github.com/kishyassin/goframe/dataframe"
 )
@@ -129,6 +131,9 @@ type seqState struct {
 	mode  string
 	names []string
 	kinds []string // when non-empty, only these operation kinds are generated
+	script  []string // when non-empty, the next steps are exactly these kinds, each on the most recent frame
+	lastBy  []string // the column list and direction of the last generated sort (reused by the script's "resort")
+	lastAsc bool
 	extra func()   // extra output of the current step, emitted after the status
 }
 
@@ -213,6 +218,14 @@ func (s *seqState) stepOnce() {
 		kind = "csvrt"
 	}
 	t := r.Intn(len(s.pool))
+	resort := false
+	if len(s.script) > 0 {
+		kind, s.script = s.script[0], s.script[1:]
+		t = len(s.pool) - 1
+		if kind == "resort" {
+			kind, resort = "sort", s.lastBy != nil
+		}
+	}
 	if s.mode == "c02" && len(s.pool) > 1 && r.Chance(50) {
 		t = len(s.pool) - 1 - r.Intn(2) // favour the most recently derived frames and their neighbours
 	}
@@ -336,6 +349,10 @@ func (s *seqState) stepOnce() {
 	case "sort":
 		cols := s.colList(f, 2, bad)
 		asc := r.Bool()
+		if resort {
+			cols, asc = s.lastBy, s.lastAsc // the very same request again
+		}
+		s.lastBy, s.lastAsc = cols, asc
 		e.Tok("sort")
 		e.Int(t)
 		e.Strs(cols)
@@ -379,7 +396,11 @@ func (s *seqState) stepOnce() {
 			f = s.pool[t]
 		}
 		g := s.pool[u]
-		if f.Nrows()*g.Nrows() > 400 { // keep results small: nested-loop joins multiply sizes
+		limit := 400
+		if s.mode == "c03" {
+			limit = 1000 // only the two generated frames are ever joined here (at most 30 x 30 rows)
+		}
+		if f.Nrows()*g.Nrows() > limit { // keep results small: nested-loop joins multiply sizes
 			u = t
 			g = f
 			if f.Nrows() > 20 {
@@ -604,7 +625,7 @@ func (s *seqState) stepOnce() {
 		status, _ = guard(func() error { f.Columns[name].Data[i] = v; return nil })
 	case "adddt":
 		col := s.r.NameFor(f, s.names)
-		layout := Pick(r, []string{"2006-01-02", "2006-01-02 15:04:05"})
+		layout := Pick(r, []string{"2006-01-02", "2006-01-02 15:04:05", "2006-01-02", "2006-01-02 15:04:05", time.RFC3339, "January 2, 2006"})
 		if c, ok := f.Columns[col]; ok {
 			for _, v := range c.Data {
 				if sv, ok := v.(string); ok {
@@ -696,9 +717,13 @@ func genSeq(r *Rng, mode string, steps int) *Enc {
 	s := &seqState{r: r, e: e, mode: mode, names: names}
 	switch mode {
 	case "c03":
-		s.kinds = []string{"join"}
-		steps = r.Range(1, 3)
+		s.kinds = []string{"join", "join", "join", "join", "fillna", "setcell"}
+		steps = r.Range(1, 4)
 		keyAlpha := []any{nil, 1, 2, int64(1), 1.0, "1", "a", true, 3, "b"}
+		if r.Chance(6) {
+			// integer keys that float64 cannot tell apart
+			keyAlpha = []any{int64(1) << 53, int64(1)<<53 + 1, uint64(math.MaxUint64), uint64(math.MaxUint64 - 1), int64(1)<<53 + 2, nil}
+		}
 		mk := func(payload []string) *DF {
 			n := r.SmallN()
 			if r.Chance(10) {
@@ -724,8 +749,13 @@ func genSeq(r *Rng, mode string, steps int) *Enc {
 		s.pool = []*DF{mk(left), mk(right)}
 		s.names = []string{"k", "a", "c", "zz"}
 	case "c06":
-		s.kinds = []string{"sort"}
-		steps = r.Range(1, 2)
+		s.kinds = []string{"sort", "sort", "sort", "fillna"}
+		steps = r.Range(1, 3)
+		if r.Chance(12) {
+			// sort, edit the RESULT in place, ask for the very same sort of the result again
+			s.script = []string{"sort", Pick(r, []string{"fillna", "setcell", "fillna"}), "resort"}
+			steps = 3
+		}
 		n := r.SmallN()
 		if r.Chance(35) {
 			n = r.Range(9, 40)
@@ -814,9 +844,18 @@ func genSeq(r *Rng, mode string, steps int) *Enc {
 				d = r.Column(n, kInt)
 			case 2: // date strings
 				d = make([]any, n)
+				// one family of texts per column (so that a whole column can be parsable under one layout); the last
+				// two families contain values SHORTER than their variable-width layout (RFC3339 with Z, month names)
+				fam := Pick(r, [][]string{
+					{"2020-01-02", "1999-12-31", "2021-02-30", "2020-01-02 03:04:05", "x"},
+					{"2020-01-02", "1999-12-31", "2024-02-29"},
+					{"2020-01-02 03:04:05", "1999-12-31 23:59:59"},
+					{"2024-02-29T12:30:00Z", "2024-02-29T12:30:00+02:00", "1999-12-31T23:59:59Z"},
+					{"May 5, 2024", "September 15, 2023", "January 2, 2006"},
+				})
 				for i := range d {
-					d[i] = Pick(r, []string{"2020-01-02", "1999-12-31", "2021-02-30", "2020-01-02 03:04:05", "x"})
-					if r.Chance(10) {
+					d[i] = Pick(r, fam)
+					if r.Chance(6) {
 						d[i] = nil
 					}
 				}
@@ -879,6 +918,46 @@ func genSeq(r *Rng, mode string, steps int) *Enc {
 			s.pool = append(s.pool, f)
 		}
 	}
+	// rare large or wide frames, with the operations whose implementation might treat them differently
+	switch {
+	case mode == "c02" && r.Intn(60) == 0:
+		s.pool = []*DF{bigFrame(r, Pick(r, []int{2100, 2500, 3000}), r.Range(1, 2))}
+		s.kinds = []string{"head", "tail", "head", "tail", "rowslice", "setcell", "fillna", "droprow", "shift"}
+		steps = r.Range(3, 4)
+	case mode == "c08" && r.Intn(50) == 0:
+		s.pool = []*DF{bigFrame(r, Pick(r, []int{513, 515, 1021, 1027}), r.Range(1, 3))}
+		s.kinds = []string{"filter", "filter", "head", "tail", "rowslice", "iloc", "droprow"}
+		steps = r.Range(1, 2)
+	case mode == "c07" && r.Intn(40) == 0:
+		// one class of many identical rows (a counter of small width would wrap), plus a few other rows
+		n := Pick(r, []int{257, 513, 258, 300})
+		df := dataframe.NewDataFrame()
+		a, b := make([]any, n), make([]any, n)
+		for i := range a {
+			a[i], b[i] = "same", 1
+		}
+		for k := r.Intn(3); k > 0; k-- {
+			i := r.Intn(n)
+			a[i], b[i] = "other", r.Intn(2)
+		}
+		df.Columns["a"] = &dataframe.Column[any]{Name: "a", Data: a}
+		df.Columns["b"] = &dataframe.Column[any]{Name: "b", Data: b}
+		s.pool = []*DF{df}
+		s.kinds = []string{"dedup", "dedupin"}
+		steps = 1
+	case mode == "c19" && r.Intn(60) == 0:
+		s.pool = []*DF{bigFrame(r, r.Range(1, 3), Pick(r, []int{33, 40, 100}))}
+		s.kinds = []string{"shift"}
+		steps = r.Range(1, 2)
+	case mode == "c15" && r.Intn(80) == 0:
+		s.pool = []*DF{bigFrame(r, Pick(r, []int{513, 1027}), 2)}
+		s.kinds = []string{"fillna", "dropna", "astype"}
+		steps = r.Range(1, 2)
+	case mode == "c06" && r.Intn(80) == 0:
+		s.pool = []*DF{bigFrame(r, Pick(r, []int{100, 257, 515}), 2)}
+		s.kinds = []string{"sort"}
+		steps = 1
+	}
 	e.Tok("P")
 	e.Int(len(s.pool))
 	for _, f := range s.pool {
@@ -891,4 +970,32 @@ func genSeq(r *Rng, mode string, steps int) *Enc {
 		s.stepOnce()
 	}
 	return e
+}
+
+// bigFrame: n rows of simple patterned cells (ints with some nils, floats, short text); sizes beyond the chunking,
+// pooling and parallelisation thresholds an implementation might introduce (64, 256, 512, 1024, 2048, 4096)
+func bigFrame(r *Rng, n, ncols int) *DF {
+	df := dataframe.NewDataFrame()
+	for j := 0; j < ncols; j++ {
+		name := string(rune('a' + j%26))
+		if j >= 26 {
+			name = fmt.Sprintf("c%03d", j)
+		}
+		d := make([]any, n)
+		for i := range d {
+			switch j % 3 {
+			case 0:
+				d[i] = (i*7 + j) % 11
+				if i%13 == 5 {
+					d[i] = nil
+				}
+			case 1:
+				d[i] = float64((i*3+j)%17) / 4
+			default:
+				d[i] = Pick(r, []string{"x", "y", "z", ""})
+			}
+		}
+		df.Columns[name] = &dataframe.Column[any]{Name: name, Data: d}
+	}
+	return df
 }
